@@ -1,3 +1,29 @@
+/-
+  C12 -- the comment stages of the native reader (`commentStages`: line comments, include directives, block comments)
+  on ANY admissible layout of a well-formed commented document produce exactly what `labelCToks` describes.
+
+    `comment_stages_on`, `comment_stages_off`            the two main theorems (token view, as asked for)
+    `comment_stages_on_doc`, `comment_stages_off_doc`    the same with the document view (`labelCItems`, `srcToksPEs`,
+                                                         `plainItems`): the form `C12rest.read_commented_denC'` takes
+    `comment_stages_on_toks`, `comment_stages_off_toks`  for any list of admissible tokens, with the new gaps explicit
+                                                         (`padGaps`, `mergeGaps`)
+    `labelCToks_items`, `ctoks_plain`, `labelled_wf`, `plain_wf`      the bridges token view ↔ document view
+    `comment_stages_needs_tail`                          the one added hypothesis cannot be dropped
+    `exDoc` … `exDoc_on_text`, `exDoc_off_text`          non-vacuity
+
+  Added hypothesis: `items = [] → tail.all isWs` (for the empty document `GapsOKC` says nothing about the tail).
+
+  Route (helpers in `DictIO.C12.Stages`):
+    2  stage 1 character by character: `LM_step` (one character in front of a text: the first line gets it, or a new
+       line starts; CR LF), `LM_pass` (a stretch without `//`), `LM_lineC` (a line comment up to its line feed);
+       the invariant `InvB` (no output line is an include directive) rides along, with `noHash` of `C02main`
+    3  `gapsOKC_inv` (what `GapsOKC` says about the text behind a token), `ctoksI_ok` (the tokens of a document)
+    4  `stageA` (stage 1 on a layout: `lineToks`), `gapsOKC_lineToks`
+    5  `stages12` (stage 2 is the identity)
+    6  `BL_step`, `BL_pass`, `BL_block`, `block_fuel`, `stageB` (stage 3 on a layout: `blockTexts`), `stages123`
+    7  `stages_state`, `stages_texts_on`, `stages_texts_off`, `relToks_label` (against `labelCToks`)
+    8  `on_text`, `on_gaps`, `off_text`, `off_gaps` (the result is an admissible layout again)
+-/
 import DictIO.Model.GrammarC
 import DictIO.Props.C12
 
@@ -698,8 +724,8 @@ theorem lexLine_comment (cm : Bool) (st : LexSt) (x nl : Str) (hx : ∀ c ∈ x,
 theorem iFree_ph (cm : Bool) (st : LexSt) (nl : Str) (hnl : nl = [] ∨ nl = ['\n']) : IFree (phL cm st ++ nl) := by
   cases cm with
   | true =>
-    have : phL true st ++ nl = 'L' :: ("INECOMMENT".toList ++ padSix st.fresh.1 ++ nl) := by simp [phL, kwLine]
-    rw [this]
+    have e : phL true st = 'L' :: ("INECOMMENT".toList ++ padSix st.fresh.1) := rfl
+    rw [e, List.cons_append]
     exact iFree_nws (by decide) (by decide) _
   | false =>
     rcases hnl with rfl | rfl
@@ -722,7 +748,7 @@ theorem LM_lineC (cm : Bool) (st : LexSt) (x q : Str) (hx : ∀ c ∈ x, isLineB
   · have h1 := lexLine_comment cm st x [] hx (Or.inl rfl)
     simp only [List.append_nil] at h1 ⊢
     simp only [LM, lines_nobreak _ (by simp) hx', lineMap, h1, splitLinesKeep]
-    refine ⟨rfl, by simp, fun _ => invB_of_all ?_ true⟩
+    refine ⟨trivial, by simp, fun _ => invB_of_all ?_ true⟩
     intro l hl
     simp only [List.mem_singleton] at hl
     subst hl
@@ -736,7 +762,7 @@ theorem LM_lineC (cm : Bool) (st : LexSt) (x q : Str) (hx : ∀ c ∈ x, isLineB
       have e2 := LM_break cm (stL st x) q' C02.isLineBreak_nl (by simp)
       rw [e2]
       simp only [LM, lines_nobreak_nl _ q' hx', lineMap, h1]
-      refine ⟨rfl, by simp, fun hinv => invB_of_all ?_ true⟩
+      refine ⟨trivial, by simp, fun hinv => invB_of_all ?_ true⟩
       have hall := invB_all hinv
       intro l hl
       rcases List.mem_cons.mp hl with rfl | hl
@@ -817,19 +843,21 @@ theorem blockTok_noHash {x : Str} (hx : isBlockCText x = true) (b : Bool) :
   have h1 : noHash false x = true :=
     noHash_mono x (noHash_complete x true (fun l hl' => hl l (List.mem_of_mem_tail hl'))
       (fun _ l hl' => hl l (List.mem_of_mem_head? hl')))
-  have e1 : nextSt b '/' = false := by simp [nextSt]; constructor <;> decide
-  have e2 : nextSt false '*' = false := by simp [nextSt]; decide
-  have e3 : ∀ b, nextSt b '*' = false := by intro b; simp [nextSt]; constructor <;> decide
-  have e4 : nextSt false '/' = false := by simp [nextSt]; decide
+  have c1 : isLineBreak '/' = false := by decide
+  have c2 : isWs '/' = false := by decide
+  have c3 : isLineBreak '*' = false := by decide
+  have c4 : isWs '*' = false := by decide
+  have e1 : nextSt b '/' = false := by simp [nextSt, c1, c2]
+  have e2 : nextSt false '*' = false := by simp [nextSt, c3]
+  have e3 : ∀ b, nextSt b '*' = false := by intro b; simp [nextSt, c3, c4]
+  have e4 : nextSt false '/' = false := by simp [nextSt, c1]
   have a1 : '/' :: '*' :: x ++ ['*', '/'] = ['/', '*'] ++ (x ++ ['*', '/']) := by simp
   have hend : ∀ b, noHash b ['*', '/'] = true ∧ lineSt b ['*', '/'] = false := by
     intro b
     simp [noHash, lineSt, e3, e4]
-    decide
   constructor
   · rw [a1, C02.Main.noHash_append, C02.Main.noHash_append]
     simp [noHash, lineSt, e1, e2, h1, (hend _).1]
-    decide
   · have lineSt_append : ∀ (a c : Str) (b : Bool), lineSt b (a ++ c) = lineSt (lineSt b a) c := by
       intro a c
       induction a with
@@ -846,6 +874,1049 @@ theorem blockTok_noSS {x : Str} (hx : isBlockCText x = true) :
   · intro h _; simp at h
   · intro _ h; simp at h
 
+/-! ## 3. admissible layouts, one token at a time -/
+
+theorem spreadC_nil (gaps : List Str) (tail : Str) : spreadC [] gaps tail = tail := rfl
+
+theorem spreadC_cons (t : CTok) (ts : List CTok) (g : Str) (gs : List Str) (tail : Str) :
+    spreadC (t :: ts) (g :: gs) tail = g ++ (t.text ++ spreadC ts gs tail) := by
+  simp [spreadC, spread]
+
+theorem gapsOKC_head_ws {t : CTok} {ts : List CTok} {g : Str} {gs : List Str} {tail : Str}
+    (h : GapsOKC (t :: ts) (g :: gs) tail = true) : g.all isWs = true := by
+  cases ts with
+  | nil => simp only [GapsOKC, Bool.and_eq_true] at h; exact h.1.1
+  | cons u ts =>
+    cases gs with
+    | nil => simp [GapsOKC] at h
+    | cons g' gs => simp only [GapsOKC, Bool.and_eq_true] at h; exact h.1.1
+
+/-- what an admissible layout says about the text behind a token -/
+def NextOK (t : CTok) (g next : Str) : Prop :=
+  match t with
+  | .lineC _ => g ≠ [] ∧ (next = [] ∨ next.head? = some '\n')
+  | .blockC _ => g ≠ [] ∧ ∀ c, next.head? = some c → isWs c = true
+  | .tok a => isDelimSTok a = true ∨ ∀ c, next.head? = some c → isWs c = true ∨ c ∈ Gen.delimiters
+
+theorem head_of_ws {g r : Str} (hg : g.all isWs = true) (hne : g ≠ []) : ∀ c, (g ++ r).head? = some c → isWs c = true := by
+  cases g with
+  | nil => exact absurd rfl hne
+  | cons d g =>
+    intro c hc
+    simp only [List.cons_append, List.head?_cons, Option.some.injEq] at hc
+    subst hc
+    simp only [List.all_cons, Bool.and_eq_true] at hg
+    exact hg.1
+
+theorem gapsOKC_inv {t : CTok} {ts : List CTok} {gaps : List Str} {tail : Str}
+    (h : GapsOKC (t :: ts) gaps tail = true) (htail : tail.all isWs = true) :
+    ∃ g gs, gaps = g :: gs ∧ g.all isWs = true ∧ GapsOKC ts gs tail = true ∧ NextOK t g (spreadC ts gs tail) := by
+  have htl : ∀ c, tail.head? = some c → isWs c = true := fun c hc =>
+    List.all_eq_true.mp htail c (List.mem_of_mem_head? hc)
+  cases ts with
+  | nil =>
+    cases gaps with
+    | nil => simp [GapsOKC] at h
+    | cons g gs =>
+      refine ⟨g, gs, rfl, gapsOKC_head_ws h, by simp [GapsOKC], ?_⟩
+      simp only [GapsOKC, Bool.and_eq_true] at h
+      rw [spreadC_nil]
+      cases t with
+      | tok a => exact Or.inr fun c hc => Or.inl (htl c hc)
+      | lineC x =>
+        have := h.2
+        simp only [Bool.and_eq_true, Bool.not_eq_true', List.isEmpty_eq_false_iff, Bool.or_eq_true,
+          List.isEmpty_iff, beq_iff_eq] at this
+        exact ⟨this.1, this.2⟩
+      | blockC x =>
+        have := h.2
+        simp only [Bool.not_eq_true', List.isEmpty_eq_false_iff] at this
+        exact ⟨this, htl⟩
+  | cons u ts =>
+    cases gaps with
+    | nil => simp [GapsOKC] at h
+    | cons g gs =>
+      cases gs with
+      | nil => simp [GapsOKC] at h
+      | cons g' gs =>
+        have hg := gapsOKC_head_ws h
+        simp only [GapsOKC, Bool.and_eq_true] at h
+        obtain ⟨⟨_, hm⟩, hrest⟩ := h
+        have hg' := gapsOKC_head_ws hrest
+        refine ⟨g, g' :: gs, rfl, hg, hrest, ?_⟩
+        rw [spreadC_cons]
+        cases t with
+        | lineC x =>
+          simp only [Bool.and_eq_true, Bool.not_eq_true', List.isEmpty_eq_false_iff, beq_iff_eq] at hm
+          refine ⟨hm.1, Or.inr ?_⟩
+          cases g' with
+          | nil => simp at hm
+          | cons d g' => simpa using hm.2
+        | blockC x =>
+          simp only [Bool.and_eq_true, Bool.not_eq_true', List.isEmpty_eq_false_iff] at hm
+          exact ⟨hm.1, head_of_ws hg' hm.2⟩
+        | tok a =>
+          cases u with
+          | tok b =>
+            simp only [Bool.or_eq_true, Bool.not_eq_true', List.isEmpty_eq_false_iff] at hm
+            rcases hm with (hm | hm) | hm
+            · exact Or.inl hm
+            · right
+              cases g' with
+              | cons d g' => exact fun c hc => Or.inl (head_of_ws hg' (by simp) c hc)
+              | nil =>
+                cases b with
+                | quoted q body => simp [isDelimSTok] at hm
+                | word w =>
+                  obtain ⟨d, rfl, hd⟩ := C02.delimTok_inv hm
+                  intro c hc
+                  simp only [CTok.text, STok.text, List.nil_append, List.cons_append, List.head?_cons,
+                    Option.some.injEq] at hc
+                  subst hc
+                  exact Or.inr hd
+            · exact Or.inr fun c hc => Or.inl (head_of_ws hg' hm c hc)
+          | lineC y =>
+            simp only [Bool.not_eq_true', List.isEmpty_eq_false_iff] at hm
+            exact Or.inr fun c hc => Or.inl (head_of_ws hg' hm c hc)
+          | blockC y =>
+            simp only [Bool.not_eq_true', List.isEmpty_eq_false_iff] at hm
+            exact Or.inr fun c hc => Or.inl (head_of_ws hg' hm c hc)
+
+/-! ### the tokens of a well-formed commented document -/
+
+/-- an admissible token of a commented document -/
+def AOK : CTok → Prop
+  | .tok a => C02.TokOK a
+  | .lineC x => isLineCText x = true
+  | .blockC x => isBlockCText x = true
+
+mutual
+  theorem ctoksV_ok : ∀ (v : CSrc) (d : Nat), CSrcWFV d v = true → ∀ t ∈ ctoksV v, AOK t
+    | .lit l, d, h, t, ht => by
+      simp only [CSrcWFV, Bool.and_eq_true] at h
+      simp only [ctoksV, List.mem_singleton] at ht
+      subst ht
+      cases l with
+      | bare w => exact Or.inl h.1
+      | quoted q b => exact h.1
+    | .dict items, d, h, t, ht => by
+      simp only [CSrcWFV] at h
+      simp only [ctoksV, List.mem_cons, List.mem_append, List.not_mem_nil, or_false] at ht
+      rcases ht with (rfl | ht) | rfl
+      · exact C02.tokOK_delim (by decide)
+      · exact ctoksI_ok items (d + 1) h t ht
+      · exact C02.tokOK_delim (by decide)
+    | .list xs, d, h, t, ht => by
+      simp only [CSrcWFV] at h
+      simp only [ctoksV, List.mem_cons, List.mem_append, List.not_mem_nil, or_false, List.mem_map] at ht
+      rcases ht with (rfl | ⟨a, ha, rfl⟩) | rfl
+      · exact C02.tokOK_delim (by decide)
+      · exact C02.srcToksXs_ok xs (d + 1) h a ha
+      · exact C02.tokOK_delim (by decide)
+  theorem ctoksI_ok : ∀ (items : List CItem) (d : Nat), CSrcWFItems d items = true → ∀ t ∈ ctoksItems items, AOK t
+    | [], _, _, t, ht => by simp [ctoksItems] at ht
+    | .entry k (.lit l) :: r, d, h, t, ht => by
+      simp only [CSrcWFItems, Bool.and_eq_true] at h
+      obtain ⟨⟨⟨hk, _⟩, hv⟩, hr⟩ := h
+      simp only [ctoksItems, List.mem_cons] at ht
+      rcases ht with rfl | rfl | rfl | ht
+      · exact Or.inl hk
+      · exact ctoksV_ok (.lit l) d hv _ (by simp [ctoksV])
+      · exact C02.tokOK_delim (by decide)
+      · exact ctoksI_ok r d hr t ht
+    | .entry k (.dict dd) :: r, d, h, t, ht => by
+      simp only [CSrcWFItems, CSrcWFV, Bool.and_eq_true] at h
+      obtain ⟨⟨⟨hk, _⟩, hv⟩, hr⟩ := h
+      simp only [ctoksItems, List.mem_cons, List.mem_append, List.not_mem_nil, or_false] at ht
+      rcases ht with ((rfl | rfl | ht) | rfl) | ht
+      · exact Or.inl hk
+      · exact C02.tokOK_delim (by decide)
+      · exact ctoksI_ok dd (d + 1) hv t ht
+      · exact C02.tokOK_delim (by decide)
+      · exact ctoksI_ok r d hr t ht
+    | .entry k (.list l) :: r, d, h, t, ht => by
+      simp only [CSrcWFItems, CSrcWFV, Bool.and_eq_true] at h
+      obtain ⟨⟨⟨hk, _⟩, hv⟩, hr⟩ := h
+      simp only [ctoksItems, List.mem_cons, List.mem_append, List.not_mem_nil, or_false, List.mem_map] at ht
+      rcases ht with ((rfl | rfl | ⟨a, ha, rfl⟩) | rfl | rfl) | ht
+      · exact Or.inl hk
+      · exact C02.tokOK_delim (by decide)
+      · exact C02.srcToksXs_ok l (d + 1) hv a ha
+      · exact C02.tokOK_delim (by decide)
+      · exact C02.tokOK_delim (by decide)
+      · exact ctoksI_ok r d hr t ht
+    | .lineC x :: r, d, h, t, ht => by
+      simp only [CSrcWFItems, Bool.and_eq_true] at h
+      simp only [ctoksItems, List.mem_cons] at ht
+      rcases ht with rfl | ht
+      · exact h.1
+      · exact ctoksI_ok r d h.2 t ht
+    | .blockC x :: r, d, h, t, ht => by
+      simp only [CSrcWFItems, Bool.and_eq_true] at h
+      simp only [ctoksItems, List.mem_cons] at ht
+      rcases ht with rfl | ht
+      · exact h.1
+      · exact ctoksI_ok r d h.2 t ht
+end
+
+/-! ## 4. stage 1 on an admissible layout -/
+
+/-- the tokens after stage 1: a line comment has become its placeholder word (or the empty word with comments off) -/
+def lineToks (cm : Bool) : LexSt → List CTok → LexSt × List CTok
+  | st, [] => (st, [])
+  | st, .tok a :: r => ((lineToks cm st r).1, .tok a :: (lineToks cm st r).2)
+  | st, .blockC x :: r => ((lineToks cm st r).1, .blockC x :: (lineToks cm st r).2)
+  | st, .lineC x :: r => ((lineToks cm (stL st x) r).1, .tok (.word (phL cm st)) :: (lineToks cm (stL st x) r).2)
+
+theorem tok_passA {a : STok} (ha : C02.TokOK a) {g next : Str} (hn : NextOK (.tok a) g next) : PassA a.text next := by
+  rcases hn with hd | hn
+  · cases a with
+    | quoted q b => simp [isDelimSTok] at hd
+    | word w =>
+      obtain ⟨d, rfl, hd'⟩ := C02.delimTok_inv hd
+      refine passA_plain _ _ ?_
+      intro c hc
+      simp only [STok.text, List.mem_singleton] at hc
+      subst hc
+      exact ⟨(delim_ne c hd').1, (delim_ne c hd').2.1⟩
+  · refine passA_of _ _ (C02.Main.tok_noPair ha (Or.inl rfl)).1 ?_
+    intro hh
+    rcases hn _ hh with h | h
+    · exact (ws_ne h).1 rfl
+    · exact (delim_ne _ h).1 rfl
+
+theorem stageA (cm : Bool) : ∀ (ts : List CTok) (gaps : List Str) (tail : Str) (st : LexSt),
+    (∀ t ∈ ts, AOK t) → GapsOKC ts gaps tail = true → tail.all isWs = true →
+    (LM cm st (spreadC ts gaps tail)).1 = (lineToks cm st ts).1 ∧
+    (LM cm st (spreadC ts gaps tail)).2.flatten = spreadC (lineToks cm st ts).2 gaps tail ∧
+    InvB true (LM cm st (spreadC ts gaps tail)).2
+  | [], gaps, tail, st, _, _, htail => by
+    have hws := List.all_eq_true.mp htail
+    obtain ⟨p1, p2, p3⟩ := LM_pass cm tail [] st
+      (passA_plain _ _ fun c hc => ⟨(ws_ne (hws c hc)).1, (ws_ne (hws c hc)).2.1⟩)
+    simp only [List.append_nil, LM_nil] at p1 p2 p3
+    rw [spreadC_nil]
+    refine ⟨p1, by simpa [lineToks, spreadC_nil] using p2, ?_⟩
+    exact p3 true (C02.Main.noHash_ws tail true htail) ⟨by simp, by simp⟩
+  | t :: ts, gaps, tail, st, hts, hg, htail => by
+    obtain ⟨g, gs, rfl, hgws, hrest, hnext⟩ := gapsOKC_inv hg htail
+    have hws := List.all_eq_true.mp hgws
+    rw [spreadC_cons]
+    obtain ⟨p1, p2, p3⟩ := LM_pass cm g (t.text ++ spreadC ts gs tail) st
+      (passA_plain _ _ fun c hc => ⟨(ws_ne (hws c hc)).1, (ws_ne (hws c hc)).2.1⟩)
+    have hts' : ∀ u ∈ ts, AOK u := fun u hu => hts u (by simp [hu])
+    -- it suffices to treat the token and what follows
+    suffices hin : (LM cm st (t.text ++ spreadC ts gs tail)).1 = (lineToks cm st (t :: ts)).1 ∧
+        g ++ (LM cm st (t.text ++ spreadC ts gs tail)).2.flatten = spreadC (lineToks cm st (t :: ts)).2 (g :: gs) tail ∧
+        InvB true (LM cm st (t.text ++ spreadC ts gs tail)).2 by
+      refine ⟨p1.trans hin.1, p2.trans hin.2.1, ?_⟩
+      exact p3 true (C02.Main.noHash_ws g true hgws) (invB_weaken hin.2.2 _)
+    cases t with
+    | tok a =>
+      have ha : C02.TokOK a := hts (.tok a) (by simp)
+      obtain ⟨i1, i2, i3⟩ := stageA cm ts gs tail st hts' hrest htail
+      obtain ⟨q1, q2, q3⟩ := LM_pass cm a.text (spreadC ts gs tail) st (tok_passA ha hnext)
+      simp only [CTok.text, lineToks, spreadC_cons]
+      refine ⟨q1.trans i1, by rw [q2, i2], ?_⟩
+      exact q3 true (C02.Main.noHash_tok ha true).1 (invB_weaken i3 _)
+    | blockC x =>
+      have hx : isBlockCText x = true := hts (.blockC x) (by simp)
+      obtain ⟨i1, i2, i3⟩ := stageA cm ts gs tail st hts' hrest htail
+      have hpass : PassA ('/' :: '*' :: x ++ ['*', '/']) (spreadC ts gs tail) := by
+        refine passA_of _ _ (blockTok_noSS hx) ?_
+        intro hh
+        exact (ws_ne (hnext.2 _ hh)).1 rfl
+      obtain ⟨q1, q2, q3⟩ := LM_pass cm _ (spreadC ts gs tail) st hpass
+      simp only [CTok.text, lineToks, spreadC_cons]
+      refine ⟨q1.trans i1, by rw [q2, i2], ?_⟩
+      exact q3 true (blockTok_noHash hx true).1 (invB_weaken i3 _)
+    | lineC x =>
+      have hx : isLineCText x = true := hts (.lineC x) (by simp)
+      have hx' : ∀ c ∈ x, isLineBreak c = false := by
+        simpa [isLineCText, List.all_eq_true] using hx
+      obtain ⟨i1, i2, i3⟩ := stageA cm ts gs tail (stL st x) hts' hrest htail
+      obtain ⟨q1, q2, q3⟩ := LM_lineC cm st x (spreadC ts gs tail) hx' hnext.2
+      simp only [CTok.text, lineToks, spreadC_cons, STok.text]
+      exact ⟨q1.trans i1, by rw [q2, i2], q3 i3⟩
+
+theorem gapsOKC_lineToks (cm : Bool) : ∀ (ts : List CTok) (gaps : List Str) (tail : Str) (st : LexSt),
+    GapsOKC ts gaps tail = true → GapsOKC (lineToks cm st ts).2 gaps tail = true
+  | [], _, _, _, _ => by simp [lineToks, GapsOKC]
+  | [t], [], _, _, h => by simp [GapsOKC] at h
+  | [t], g :: gs, tail, st, h => by
+    cases t <;> simp_all [lineToks, GapsOKC]
+  | t :: u :: ts, [], _, _, h => by simp [GapsOKC] at h
+  | t :: u :: ts, [g], _, _, h => by simp [GapsOKC] at h
+  | t :: u :: ts, g :: g' :: gs, tail, st, h => by
+    simp only [GapsOKC, Bool.and_eq_true] at h
+    obtain ⟨⟨hg, hm⟩, hrest⟩ := h
+    cases t with
+    | tok a =>
+      have ih := gapsOKC_lineToks cm (u :: ts) (g' :: gs) tail st hrest
+      cases u with
+      | tok b =>
+        simp only [lineToks] at ih ⊢
+        simp only [GapsOKC, Bool.and_eq_true]
+        exact ⟨⟨hg, hm⟩, ih⟩
+      | lineC y =>
+        simp only [lineToks] at ih ⊢
+        simp only [GapsOKC, Bool.and_eq_true]
+        refine ⟨⟨hg, ?_⟩, ih⟩
+        simp only [Bool.or_eq_true]
+        exact Or.inr hm
+      | blockC y =>
+        simp only [lineToks] at ih ⊢
+        simp only [GapsOKC, Bool.and_eq_true]
+        exact ⟨⟨hg, hm⟩, ih⟩
+    | blockC x =>
+      have ih := gapsOKC_lineToks cm (u :: ts) (g' :: gs) tail st hrest
+      cases u <;>
+      · simp only [lineToks] at ih ⊢
+        simp only [GapsOKC, Bool.and_eq_true]
+        exact ⟨⟨hg, by simpa using hm⟩, ih⟩
+    | lineC x =>
+      have ih := gapsOKC_lineToks cm (u :: ts) (g' :: gs) tail (stL st x) hrest
+      simp only [Bool.and_eq_true, Bool.not_eq_true', List.isEmpty_eq_false_iff, beq_iff_eq] at hm
+      have hg' : g'.isEmpty = false := by
+        cases g' with
+        | nil => simp at hm
+        | cons d g' => rfl
+      cases u <;>
+      · simp only [lineToks] at ih ⊢
+        simp only [GapsOKC, Bool.and_eq_true]
+        refine ⟨⟨hg, ?_⟩, ih⟩
+        simp [hg']
+
+/-! ## 5. stage 2 (include directives) finds nothing; the first two stages together -/
+
+theorem stages12 (cm : Bool) (dir : Str) (c : Counter) (ts : List CTok) (gaps : List Str) (tail : Str)
+    (hts : ∀ t ∈ ts, AOK t) (hg : GapsOKC ts gaps tail = true) (htail : tail.all isWs = true) :
+    commentStages cm dir c (spreadC ts gaps tail) =
+      ({ (lineToks cm { counter := c } ts).1 with
+          blockC := (lexBlockCommentsFuel cm ((spreadC (lineToks cm { counter := c } ts).2 gaps tail).length + 1) 0 []
+            (spreadC (lineToks cm { counter := c } ts).2 gaps tail)).1 },
+       (lexBlockCommentsFuel cm ((spreadC (lineToks cm { counter := c } ts).2 gaps tail).length + 1) 0 []
+            (spreadC (lineToks cm { counter := c } ts).2 gaps tail)).2) := by
+  obtain ⟨a1, a2, a3⟩ := stageA cm ts gaps tail { counter := c } hts hg htail
+  have hfree := invB_all a3
+  have f1 := foldl_lineMap cm (splitLinesKeep (spreadC ts gaps tail)) { counter := c } []
+  have f2 := C02.Front.foldl_id_lines (lexInclude dir) (LM cm { counter := c } (spreadC ts gaps tail)).1
+    (LM cm { counter := c } (spreadC ts gaps tail)).2 [] (fun l hl => C02.lexInclude_id dir _ (hfree l hl))
+  simp only [List.nil_append] at f1 f2
+  unfold commentStages
+  simp only [f1]
+  simp only [LM] at f2 a1 a2
+  simp only [f2]
+  simp only [a1, a2]
+
+/-! ## 6. stage 3 (block comments), character by character -/
+
+/-- stage 3 with exactly the fuel `parseNative` gives it -/
+def BL (cm : Bool) (n : Nat) (tbl : Tbl Str) (s : Str) : Tbl Str × Str :=
+  lexBlockCommentsFuel cm (s.length + 1) n tbl s
+
+theorem takeEnd_len (r : Str) : ∀ body rest, takeToCommentEnd r = some (body, rest) → rest.length < r.length := by
+  fun_induction takeToCommentEnd r with
+  | case1 r =>
+    intro body rest h
+    simp only [Option.some.injEq, Prod.mk.injEq] at h
+    obtain ⟨_, rfl⟩ := h
+    simp only [List.length_cons]; omega
+  | case2 c r hne ih =>
+    intro body rest h
+    simp only [Option.map_eq_some_iff] at h
+    obtain ⟨⟨a, b⟩, h1, h2⟩ := h
+    simp only [Prod.mk.injEq] at h2
+    obtain ⟨_, rfl⟩ := h2
+    have := ih _ _ h1
+    simp; omega
+  | case3 => intro body rest h; cases h
+
+/-- more fuel than characters: the amount does not matter -/
+theorem block_fuel (cm : Bool) : ∀ (f1 f2 n : Nat) (tbl : Tbl Str) (s : Str), s.length < f1 → s.length < f2 →
+    lexBlockCommentsFuel cm f1 n tbl s = lexBlockCommentsFuel cm f2 n tbl s
+  | 0, _, _, _, _, h, _ => by omega
+  | _ + 1, 0, _, _, _, _, h => by omega
+  | f1 + 1, f2 + 1, n, tbl, [], _, _ => by simp [lexBlockCommentsFuel]
+  | f1 + 1, f2 + 1, n, tbl, c :: r, h1, h2 => by
+    simp only [List.length_cons] at h1 h2
+    by_cases hc : c = '/' ∧ r.head? = some '*'
+    · obtain ⟨rfl, hr⟩ := hc
+      cases r with
+      | nil => simp at hr
+      | cons d r' =>
+        simp only [List.head?_cons, Option.some.injEq] at hr
+        subst hr
+        simp only [List.length_cons] at h1 h2
+        rw [lexBlockCommentsFuel, lexBlockCommentsFuel]
+        cases ht : takeToCommentEnd r' with
+        | none =>
+          simp only []
+          rw [block_fuel cm f1 f2 n tbl ('*' :: r') (by simp; omega) (by simp; omega)]
+        | some p =>
+          obtain ⟨body, rest⟩ := p
+          have := takeEnd_len r' body rest ht
+          simp only []
+          rw [block_fuel cm f1 f2 (n + 1) _ rest (by omega) (by omega)]
+    · rw [lexBlock_step cm f1 n tbl c r hc, lexBlock_step cm f2 n tbl c r hc,
+        block_fuel cm f1 f2 n tbl r (by omega) (by omega)]
+
+theorem BL_nil (cm : Bool) (n : Nat) (tbl : Tbl Str) : BL cm n tbl [] = (tbl, []) := by
+  simp [BL, lexBlockCommentsFuel]
+
+theorem BL_step (cm : Bool) (n : Nat) (tbl : Tbl Str) (c : Char) (r : Str) (h : ¬(c = '/' ∧ r.head? = some '*')) :
+    BL cm n tbl (c :: r) = ((BL cm n tbl r).1, c :: (BL cm n tbl r).2) :=
+  lexBlock_step cm (r.length + 1) n tbl c r h
+
+/-- no character of `p`, in front of what follows it in `p ++ q`, opens a block comment -/
+def PassB : Str → Str → Prop
+  | [], _ => True
+  | c :: p, q => ¬(c = '/' ∧ (p ++ q).head? = some '*') ∧ PassB p q
+
+theorem BL_pass (cm : Bool) (n : Nat) (tbl : Tbl Str) : ∀ (p q : Str), PassB p q →
+    BL cm n tbl (p ++ q) = ((BL cm n tbl q).1, p ++ (BL cm n tbl q).2)
+  | [], q, _ => rfl
+  | c :: p, q, h => by
+    rw [List.cons_append, BL_step cm n tbl c (p ++ q) h.1, BL_pass cm n tbl p q h.2]
+    rfl
+
+theorem passB_plain : ∀ (p q : Str), (∀ c ∈ p, c ≠ '/') → PassB p q
+  | [], _, _ => trivial
+  | c :: p, q, h => ⟨fun e => h c (by simp) e.1, passB_plain p q (fun d hd => h d (by simp [hd]))⟩
+
+theorem passB_of : ∀ (p q : Str), isInfix ['/', '*'] p = false → q.head? ≠ some '*' → PassB p q
+  | [], _, _, _ => trivial
+  | c :: p, q, h, hq => by
+    rw [C02.isInfix_cons] at h
+    simp only [Bool.or_eq_false_iff] at h
+    refine ⟨?_, passB_of p q h.2 hq⟩
+    rintro ⟨rfl, e⟩
+    cases p with
+    | nil => exact hq (by simpa using e)
+    | cons d p' =>
+      simp only [List.cons_append, List.head?_cons, Option.some.injEq] at e
+      subst e
+      simp [List.isPrefixOf] at h
+
+/-- what stage 3 puts in the place of block comment number `n` -/
+def padB (cm : Bool) (n : Nat) : Str := if cm then [' '] ++ kwBlock ++ padSix n ++ [' '] else []
+
+theorem BL_block (cm : Bool) (n : Nat) (tbl : Tbl Str) (x q : Str) (hx : isInfix ['*', '/'] x = false) :
+    BL cm n tbl (('/' :: '*' :: x ++ ['*', '/']) ++ q) =
+      ((BL cm (n + 1) (tbl ++ [(n, '/' :: '*' :: x ++ ['*', '/'])]) q).1,
+       padB cm n ++ (BL cm (n + 1) (tbl ++ [(n, '/' :: '*' :: x ++ ['*', '/'])]) q).2) := by
+  have e : ('/' :: '*' :: x ++ ['*', '/']) ++ q = '/' :: '*' :: (x ++ '*' :: '/' :: q) := by simp
+  rw [e]
+  unfold BL
+  rw [lexBlockCommentsFuel, takeToCommentEnd_hit q x hx]
+  simp only []
+  rw [block_fuel cm _ (q.length + 1) (n + 1) _ q (by simp; omega) (by omega)]
+  rfl
+
+/-! ### stage 3 on an admissible layout without line comments -/
+
+/-- the token texts after stage 3 -/
+def blockTexts (cm : Bool) : Nat → Tbl Str → List CTok → Tbl Str × List Str
+  | _, tbl, [] => (tbl, [])
+  | n, tbl, .tok a :: r => ((blockTexts cm n tbl r).1, a.text :: (blockTexts cm n tbl r).2)
+  | n, tbl, .lineC x :: r => ((blockTexts cm n tbl r).1, ('/' :: '/' :: x) :: (blockTexts cm n tbl r).2)
+  | n, tbl, .blockC x :: r =>
+    ((blockTexts cm (n + 1) (tbl ++ [(n, '/' :: '*' :: x ++ ['*', '/'])]) r).1,
+     padB cm n :: (blockTexts cm (n + 1) (tbl ++ [(n, '/' :: '*' :: x ++ ['*', '/'])]) r).2)
+
+/-- what stage 3 needs to know about a token -/
+def BOK : CTok → Prop
+  | .tok a => isInfix ['/', '*'] a.text = false ∧ (isDelimSTok a = true → ∀ c ∈ a.text, c ≠ '/')
+  | .blockC x => isInfix ['*', '/'] x = false
+  | .lineC _ => False
+
+theorem spread_cons' (t : Str) (ts : List Str) (g : Str) (gs : List Str) (tail : Str) :
+    spread (t :: ts) (g :: gs) tail = g ++ (t ++ spread ts gs tail) := by simp [spread]
+
+theorem stageB (cm : Bool) : ∀ (ts : List CTok) (gaps : List Str) (tail : Str) (n : Nat) (tbl : Tbl Str),
+    (∀ t ∈ ts, BOK t) → GapsOKC ts gaps tail = true → tail.all isWs = true →
+    BL cm n tbl (spreadC ts gaps tail) = ((blockTexts cm n tbl ts).1, spread (blockTexts cm n tbl ts).2 gaps tail)
+  | [], gaps, tail, n, tbl, _, _, htail => by
+    have hws := List.all_eq_true.mp htail
+    have := BL_pass cm n tbl tail [] (passB_plain _ _ fun c hc => (ws_ne (hws c hc)).1)
+    simp only [List.append_nil, BL_nil] at this
+    simpa [spreadC_nil, blockTexts, spread] using this
+  | t :: ts, gaps, tail, n, tbl, hts, hg, htail => by
+    obtain ⟨g, gs, rfl, hgws, hrest, hnext⟩ := gapsOKC_inv hg htail
+    have hws := List.all_eq_true.mp hgws
+    have hts' : ∀ u ∈ ts, BOK u := fun u hu => hts u (by simp [hu])
+    rw [spreadC_cons, BL_pass cm n tbl g _ (passB_plain _ _ fun c hc => (ws_ne (hws c hc)).1)]
+    cases t with
+    | tok a =>
+      have ha : BOK (.tok a) := hts (.tok a) (by simp)
+      have hpass : PassB a.text (spreadC ts gs tail) := by
+        rcases hnext with hd | hn
+        · exact passB_plain _ _ (ha.2 hd)
+        · refine passB_of _ _ ha.1 ?_
+          intro hh
+          rcases hn _ hh with h | h
+          · exact (ws_ne h).2.2.1 rfl
+          · exact (delim_ne _ h).2.2.1 rfl
+      simp only [CTok.text]
+      rw [BL_pass cm n tbl a.text _ hpass, stageB cm ts gs tail n tbl hts' hrest htail]
+      simp only [blockTexts, spread_cons']
+    | blockC x =>
+      have hx : isInfix ['*', '/'] x = false := hts (.blockC x) (by simp)
+      simp only [CTok.text]
+      rw [BL_block cm n tbl x _ hx, stageB cm ts gs tail _ _ hts' hrest htail]
+      simp only [blockTexts, spread_cons']
+    | lineC x => exact (hts (.lineC x) (by simp)).elim
+
+theorem lineToks_BOK (cm : Bool) : ∀ (ts : List CTok) (st : LexSt), (∀ t ∈ ts, AOK t) →
+    ∀ t ∈ (lineToks cm st ts).2, BOK t
+  | [], _, _, t, ht => by simp [lineToks] at ht
+  | .tok a :: r, st, h, t, ht => by
+    simp only [lineToks, List.mem_cons] at ht
+    rcases ht with rfl | ht
+    · have ha : C02.TokOK a := h (.tok a) (by simp)
+      have := C02.Main.tok_noPair ha (b := '*') (Or.inr rfl)
+      exact ⟨this.1, fun hd c hc => (this.2 hd c hc).1⟩
+    · exact lineToks_BOK cm r st (fun u hu => h u (by simp [hu])) t ht
+  | .blockC x :: r, st, h, t, ht => by
+    simp only [lineToks, List.mem_cons] at ht
+    rcases ht with rfl | ht
+    · have hx : isBlockCText x = true := h (.blockC x) (by simp)
+      exact (blockText_iff.mp hx).1
+    · exact lineToks_BOK cm r st (fun u hu => h u (by simp [hu])) t ht
+  | .lineC x :: r, st, h, t, ht => by
+    simp only [lineToks, List.mem_cons] at ht
+    rcases ht with rfl | ht
+    · have hph : ∀ c ∈ phL cm st, c ≠ '/' := by
+        intro c hc
+        cases cm with
+        | true => exact (linePh_facts st.fresh.1 c hc).2.2.2.2.2.1
+        | false => simp [phL] at hc
+      exact ⟨C02.isInfix_head_notin '/' _ _ (fun hm => hph _ hm rfl), fun _ => hph⟩
+    · exact lineToks_BOK cm r (stL st x) (fun u hu => h u (by simp [hu])) t ht
+
+/-- **the three comment stages** on an admissible layout of admissible tokens: state and text, as token-wise
+    functions of the token list -/
+theorem stages123 (cm : Bool) (dir : Str) (c : Counter) (ts : List CTok) (gaps : List Str) (tail : Str)
+    (hts : ∀ t ∈ ts, AOK t) (hg : GapsOKC ts gaps tail = true) (htail : tail.all isWs = true) :
+    commentStages cm dir c (spreadC ts gaps tail) =
+      ({ (lineToks cm { counter := c } ts).1 with
+          blockC := (blockTexts cm 0 [] (lineToks cm { counter := c } ts).2).1 },
+       spread (blockTexts cm 0 [] (lineToks cm { counter := c } ts).2).2 gaps tail) := by
+  rw [stages12 cm dir c ts gaps tail hts hg htail]
+  have := stageB cm (lineToks cm { counter := c } ts).2 gaps tail 0 []
+    (lineToks_BOK cm ts _ hts) (gapsOKC_lineToks cm ts gaps tail _ hg) htail
+  unfold BL at this
+  rw [this]
+
+/-! ## 7. the token-wise functions against `labelCToks` -/
+
+/-- the labelling state inside the lexer state, with the block-comment table kept apart -/
+def labC (st : LexSt) (tbl : Tbl Str) : CLabelSt := { counter := st.counter, lineC := st.lineC, blockC := tbl }
+
+theorem stLine_labC (st : LexSt) (tbl : Tbl Str) (x : Str) : stLine (labC st tbl) x = labC (stL st x) tbl := rfl
+
+theorem stBlock_labC (st : LexSt) (tbl : Tbl Str) (x : Str) :
+    stBlock (labC st tbl) x = labC st (tbl ++ [(tbl.length, '/' :: '*' :: x ++ ['*', '/'])]) := rfl
+
+theorem phL_true (st : LexSt) (tbl : Tbl Str) : phL true st = linePh (idLine (labC st tbl)) := rfl
+
+theorem stL_with (st : LexSt) (x : Str) (c : Counter) (t : Tbl Str) :
+    ({ stL st x with counter := c, lineC := t } : LexSt) = { st with counter := c, lineC := t } := rfl
+
+/-- states: the lexer state after stage 1 and the table after stage 3 are those of `labelCToks` -/
+theorem stages_state (cm : Bool) : ∀ (ts : List CTok) (st : LexSt) (tbl : Tbl Str),
+    (lineToks cm st ts).1 =
+      { st with counter := (labelCToks (labC st tbl) ts).1.counter, lineC := (labelCToks (labC st tbl) ts).1.lineC } ∧
+    (blockTexts cm tbl.length tbl (lineToks cm st ts).2).1 = (labelCToks (labC st tbl) ts).1.blockC
+  | [], st, tbl => ⟨rfl, rfl⟩
+  | .tok a :: r, st, tbl => by
+    obtain ⟨i1, i2⟩ := stages_state cm r st tbl
+    simp only [lineToks, blockTexts, labelCToks_tok]
+    exact ⟨i1, i2⟩
+  | .lineC x :: r, st, tbl => by
+    obtain ⟨i1, i2⟩ := stages_state cm r (stL st x) tbl
+    simp only [lineToks, blockTexts, labelCToks_lineC, stLine_labC]
+    exact ⟨by rw [i1, stL_with], i2⟩
+  | .blockC x :: r, st, tbl => by
+    obtain ⟨i1, i2⟩ := stages_state cm r st (tbl ++ [(tbl.length, '/' :: '*' :: x ++ ['*', '/'])])
+    simp only [lineToks, blockTexts, labelCToks_blockC, stBlock_labC]
+    refine ⟨i1, ?_⟩
+    have hl : (tbl ++ [(tbl.length, '/' :: '*' :: x ++ ['*', '/'])]).length = tbl.length + 1 := by simp
+    rw [hl] at i2
+    exact i2
+
+def isB : CTok → Bool
+  | .blockC _ => true
+  | _ => false
+
+/-- the blank stage 3 puts on either side of a block-comment placeholder -/
+def pre (b : Bool) : Str := if b then [' '] else []
+
+/-- the texts after the comment stages (comments on), from the labelled tokens -/
+def zipPad : List CTok → List STok → List Str
+  | t :: ts, s :: ss => (pre (isB t) ++ s.text ++ pre (isB t)) :: zipPad ts ss
+  | _, _ => []
+
+theorem padB_true (n : Nat) : padB true n = pre true ++ (STok.word (blockPh n)).text ++ pre true := by
+  simp [padB, pre, blockPh, STok.text]
+
+theorem stages_texts_on : ∀ (ts : List CTok) (st : LexSt) (tbl : Tbl Str),
+    (blockTexts true tbl.length tbl (lineToks true st ts).2).2 = zipPad ts (labelCToks (labC st tbl) ts).2
+  | [], st, tbl => rfl
+  | .tok a :: r, st, tbl => by
+    simp only [lineToks, blockTexts, labelCToks_tok, zipPad, stages_texts_on r st tbl, isB, pre]
+    simp
+  | .lineC x :: r, st, tbl => by
+    simp only [lineToks, blockTexts, labelCToks_lineC, stLine_labC, zipPad, stages_texts_on r (stL st x) tbl, isB, pre,
+      phL_true st tbl]
+    simp [STok.text]
+  | .blockC x :: r, st, tbl => by
+    have ih := stages_texts_on r st (tbl ++ [(tbl.length, '/' :: '*' :: x ++ ['*', '/'])])
+    have hl : (tbl ++ [(tbl.length, '/' :: '*' :: x ++ ['*', '/'])]).length = tbl.length + 1 := by simp
+    rw [hl] at ih
+    simp only [lineToks, blockTexts, labelCToks_blockC, stBlock_labC, zipPad, ih, isB, padB_true]
+    rfl
+
+/-- the text of a token with comments off -/
+def offText : CTok → Str
+  | .tok a => a.text
+  | _ => []
+
+theorem stages_texts_off : ∀ (ts : List CTok) (st : LexSt) (n : Nat) (tbl : Tbl Str),
+    (blockTexts false n tbl (lineToks false st ts).2).2 = ts.map offText
+  | [], st, n, tbl => rfl
+  | .tok a :: r, st, n, tbl => by
+    simp only [lineToks, blockTexts, List.map_cons, offText, stages_texts_off r st n tbl]
+  | .lineC x :: r, st, n, tbl => by
+    simp only [lineToks, blockTexts, List.map_cons, offText, stages_texts_off r (stL st x) n tbl]
+    rfl
+  | .blockC x :: r, st, n, tbl => by
+    simp only [lineToks, blockTexts, List.map_cons, offText, stages_texts_off r st (n + 1) _]
+    rfl
+
+/-- the labelled token stands where the source token stood, and is a delimiter only if that was one -/
+def RelToks : List CTok → List STok → Prop
+  | [], [] => True
+  | t :: ts, s :: ss => (match t with | .tok a => s = a | _ => isDelimSTok s = false) ∧ RelToks ts ss
+  | _, _ => False
+
+theorem word_not_delim {w : Str} (hw : isWordTok w = true) : isDelimSTok (.word w) = false :=
+  C02.wordTok_not_delimTok hw
+
+theorem relToks_label : ∀ (ts : List CTok) (s : CLabelSt), RelToks ts (labelCToks s ts).2
+  | [], _ => trivial
+  | .tok a :: r, s => ⟨rfl, relToks_label r s⟩
+  | .lineC x :: r, s => ⟨word_not_delim (linePh_tok _).1, relToks_label r _⟩
+  | .blockC x :: r, s => ⟨word_not_delim (blockPh_tok _).1, relToks_label r _⟩
+
+/-! ## 8. the text after the stages is an admissible layout again -/
+
+theorem spreadS_cons' (s : STok) (ss : List STok) (g : Str) (gs : List Str) (tail : Str) :
+    spreadS (s :: ss) (g :: gs) tail = g ++ (s.text ++ spreadS ss gs tail) := by simp [spreadS, spread]
+
+theorem pre_ws (b : Bool) : (pre b).all isWs = true := by cases b <;> decide
+
+theorem all_append {a b : Str} (ha : a.all isWs = true) (hb : b.all isWs = true) : (a ++ b).all isWs = true := by
+  simp [List.all_append, ha, hb]
+
+/-! ### comments on: the blanks around a block-comment placeholder go into the neighbouring gaps -/
+
+/-- the gaps and the tail after the comment stages, comments on; `pb`: the token in front was a block comment -/
+def padGaps : Bool → List CTok → List Str → Str → List Str × Str
+  | pb, [], _, tail => ([], pre pb ++ tail)
+  | pb, t :: ts, gaps, tail =>
+    ((pre pb ++ gaps.headD [] ++ pre (isB t)) :: (padGaps (isB t) ts gaps.tail tail).1,
+     (padGaps (isB t) ts gaps.tail tail).2)
+
+theorem on_text : ∀ (ts : List CTok) (toks : List STok) (pb : Bool) (gaps : List Str) (tail : Str), RelToks ts toks →
+    pre pb ++ spread (zipPad ts toks) gaps tail = spreadS toks (padGaps pb ts gaps tail).1 (padGaps pb ts gaps tail).2
+  | [], [], pb, gaps, tail, _ => by simp [zipPad, spread, padGaps, spreadS]
+  | [], _ :: _, _, _, _, h => h.elim
+  | _ :: _, [], _, _, _, h => h.elim
+  | t :: ts, s :: ss, pb, gaps, tail, h => by
+    have ih := on_text ts ss (isB t) gaps.tail tail h.2
+    simp only [zipPad, padGaps, spreadS_cons', C02.spread_cons, ← ih]
+    simp
+
+theorem on_gaps : ∀ (ts : List CTok) (toks : List STok) (pb : Bool) (gaps : List Str) (tail : Str), RelToks ts toks →
+    GapsOKC ts gaps tail = true → tail.all isWs = true →
+    GapsOKS toks (padGaps pb ts gaps tail).1 = true ∧ (padGaps pb ts gaps tail).2.all isWs = true
+  | [], [], pb, gaps, tail, _, _, htail => ⟨rfl, all_append (pre_ws pb) htail⟩
+  | [], _ :: _, _, _, _, h, _, _ => h.elim
+  | _ :: _, [], _, _, _, h, _, _ => h.elim
+  | [t], [s], pb, [], tail, _, hg, _ => by simp [GapsOKC] at hg
+  | [t], [s], pb, g :: gs, tail, _, hg, htail => by
+    have hgw := gapsOKC_head_ws hg
+    refine ⟨?_, ?_⟩
+    · simp only [padGaps, GapsOKS, List.headD_cons]
+      exact all_append (all_append (pre_ws pb) hgw) (pre_ws _)
+    · simp only [padGaps]
+      exact all_append (pre_ws _) htail
+  | [t], _ :: _ :: _, _, _, _, h, _, _ => h.2.elim
+  | t :: u :: ts, [_], _, _, _, h, _, _ => h.2.elim
+  | t :: u :: ts, s :: s' :: ss, pb, [], tail, _, hg, _ => by simp [GapsOKC] at hg
+  | t :: u :: ts, s :: s' :: ss, pb, [g], tail, _, hg, _ => by simp [GapsOKC] at hg
+  | t :: u :: ts, s :: s' :: ss, pb, g :: g' :: gs, tail, h, hg, htail => by
+    have hgw := gapsOKC_head_ws hg
+    simp only [GapsOKC, Bool.and_eq_true] at hg
+    obtain ⟨⟨_, hm⟩, hrest⟩ := hg
+    obtain ⟨ih1, ih2⟩ := on_gaps (u :: ts) (s' :: ss) (isB t) (g' :: gs) tail h.2 hrest htail
+    simp only [padGaps, List.headD_cons, List.tail_cons] at ih1 ih2 ⊢
+    refine ⟨?_, ih2⟩
+    simp only [GapsOKS, Bool.and_eq_true]
+    refine ⟨⟨all_append (all_append (pre_ws pb) hgw) (pre_ws _), ?_⟩, ih1⟩
+    simp only [Bool.or_eq_true, Bool.not_eq_true', List.isEmpty_eq_false_iff]
+    cases t with
+    | tok a =>
+      have hs : s = a := h.1
+      subst hs
+      cases u with
+      | tok b =>
+        have hs' : s' = b := h.2.1
+        subst hs'
+        simp only [Bool.or_eq_true, Bool.not_eq_true', List.isEmpty_eq_false_iff] at hm
+        rcases hm with (hm | hm) | hm
+        · exact Or.inl (Or.inl hm)
+        · exact Or.inl (Or.inr hm)
+        · right; simp [isB, pre, hm]
+      | lineC y =>
+        simp only [Bool.not_eq_true', List.isEmpty_eq_false_iff] at hm
+        right; simp [isB, pre, hm]
+      | blockC y =>
+        simp only [Bool.not_eq_true', List.isEmpty_eq_false_iff] at hm
+        right; simp [isB, pre, hm]
+    | lineC x =>
+      simp only [Bool.and_eq_true, Bool.not_eq_true', List.isEmpty_eq_false_iff, beq_iff_eq] at hm
+      right
+      cases g' with
+      | nil => simp at hm
+      | cons d g' => simp [isB, pre]
+    | blockC x =>
+      right; simp [isB, pre]
+
+/-! ### comments off: the gaps on either side of a comment merge -/
+
+/-- the gaps and the tail after the comment stages, comments off; `p`: the white space collected since the last
+    token that stays -/
+def mergeGaps : Str → List CTok → List Str → Str → List Str × Str
+  | p, [], _, tail => ([], p ++ tail)
+  | p, .tok _ :: ts, gaps, tail =>
+    ((p ++ gaps.headD []) :: (mergeGaps [] ts gaps.tail tail).1, (mergeGaps [] ts gaps.tail tail).2)
+  | p, .lineC _ :: ts, gaps, tail => mergeGaps (p ++ gaps.headD []) ts gaps.tail tail
+  | p, .blockC _ :: ts, gaps, tail => mergeGaps (p ++ gaps.headD []) ts gaps.tail tail
+
+theorem off_text : ∀ (ts : List CTok) (p : Str) (gaps : List Str) (tail : Str),
+    p ++ spread (ts.map offText) gaps tail =
+      spreadS (plainToks ts) (mergeGaps p ts gaps tail).1 (mergeGaps p ts gaps tail).2
+  | [], p, gaps, tail => by simp [spread, mergeGaps, plainToks_nil, spreadS]
+  | .tok a :: ts, p, gaps, tail => by
+    have ih := off_text ts [] gaps.tail tail
+    simp only [List.nil_append] at ih
+    simp only [List.map_cons, offText, plainToks_tok, mergeGaps, spreadS_cons', C02.spread_cons, ← ih]
+    simp
+  | .lineC x :: ts, p, gaps, tail => by
+    have ih := off_text ts (p ++ gaps.headD []) gaps.tail tail
+    simp only [List.map_cons, offText, plainToks_lineC, mergeGaps, C02.spread_cons, ← ih]
+    simp
+  | .blockC x :: ts, p, gaps, tail => by
+    have ih := off_text ts (p ++ gaps.headD []) gaps.tail tail
+    simp only [List.map_cons, offText, plainToks_blockC, mergeGaps, C02.spread_cons, ← ih]
+    simp
+
+/-- the first merged gap starts with the collected white space and the first gap -/
+theorem merge_head : ∀ (ts : List CTok) (p : Str) (gaps : List Str) (tail : Str) (s : STok) (ss : List STok),
+    plainToks ts = s :: ss →
+    ∃ G Gs, (mergeGaps p ts gaps tail).1 = G :: Gs ∧ (p ++ gaps.headD [] ≠ [] → G ≠ [])
+  | [], _, _, _, _, _, h => by simp [plainToks_nil] at h
+  | .tok a :: ts, p, gaps, tail, _, _, _ => ⟨_, _, rfl, id⟩
+  | .lineC x :: ts, p, gaps, tail, s, ss, h => by
+    obtain ⟨G, Gs, e, hne⟩ := merge_head ts (p ++ gaps.headD []) gaps.tail tail s ss (by simpa [plainToks_lineC] using h)
+    exact ⟨G, Gs, by simpa [mergeGaps] using e, fun hp => hne (fun e => hp (List.append_eq_nil_iff.mp e).1)⟩
+  | .blockC x :: ts, p, gaps, tail, s, ss, h => by
+    obtain ⟨G, Gs, e, hne⟩ := merge_head ts (p ++ gaps.headD []) gaps.tail tail s ss (by simpa [plainToks_blockC] using h)
+    exact ⟨G, Gs, by simpa [mergeGaps] using e, fun hp => hne (fun e => hp (List.append_eq_nil_iff.mp e).1)⟩
+
+theorem off_gaps : ∀ (ts : List CTok) (p : Str) (gaps : List Str) (tail : Str), p.all isWs = true →
+    GapsOKC ts gaps tail = true → tail.all isWs = true →
+    GapsOKS (plainToks ts) (mergeGaps p ts gaps tail).1 = true ∧ (mergeGaps p ts gaps tail).2.all isWs = true
+  | [], p, gaps, tail, hp, _, htail => ⟨rfl, all_append hp htail⟩
+  | t :: ts, p, gaps, tail, hp, hg, htail => by
+    obtain ⟨g, gs, rfl, hgw, hrest, _⟩ := gapsOKC_inv hg htail
+    cases t with
+    | lineC x =>
+      simpa [mergeGaps, plainToks_lineC] using off_gaps ts (p ++ g) gs tail (all_append hp hgw) hrest htail
+    | blockC x =>
+      simpa [mergeGaps, plainToks_blockC] using off_gaps ts (p ++ g) gs tail (all_append hp hgw) hrest htail
+    | tok a =>
+      obtain ⟨ih1, ih2⟩ := off_gaps ts [] gs tail rfl hrest htail
+      simp only [mergeGaps, plainToks_tok, List.headD_cons, List.tail_cons]
+      refine ⟨?_, ih2⟩
+      cases hpl : plainToks ts with
+      | nil => simp only [GapsOKS]; exact all_append hp hgw
+      | cons b ss =>
+        obtain ⟨G, Gs, e, hne⟩ := merge_head ts [] gs tail b ss hpl
+        rw [hpl, e] at ih1
+        rw [e]
+        simp only [GapsOKS, Bool.and_eq_true]
+        refine ⟨⟨all_append hp hgw, ?_⟩, ih1⟩
+        simp only [Bool.or_eq_true, Bool.not_eq_true', List.isEmpty_eq_false_iff]
+        -- the next source token and the gap in front of it
+        cases ts with
+        | nil => simp [plainToks_nil] at hpl
+        | cons u ts' =>
+          cases gs with
+          | nil => simp [GapsOKC] at hg
+          | cons g' gs' =>
+            simp only [GapsOKC, Bool.and_eq_true] at hg
+            have hm := hg.1.2
+            simp only [List.nil_append, List.headD_cons] at hne
+            cases u with
+            | tok b' =>
+              have hb : b' = b := by
+                rw [plainToks_tok] at hpl
+                exact (List.cons.inj hpl).1
+              subst hb
+              simp only [Bool.or_eq_true, Bool.not_eq_true', List.isEmpty_eq_false_iff] at hm
+              rcases hm with (hm | hm) | hm
+              · exact Or.inl (Or.inl hm)
+              · exact Or.inl (Or.inr hm)
+              · exact Or.inr (hne hm)
+            | lineC y =>
+              simp only [Bool.not_eq_true', List.isEmpty_eq_false_iff] at hm
+              exact Or.inr (hne hm)
+            | blockC y =>
+              simp only [Bool.not_eq_true', List.isEmpty_eq_false_iff] at hm
+              exact Or.inr (hne hm)
+
+theorem gapsOKC_tail_ws : ∀ (ts : List CTok) (gaps : List Str) (tail : Str), ts ≠ [] → GapsOKC ts gaps tail = true →
+    tail.all isWs = true
+  | [], _, _, h, _ => absurd rfl h
+  | [t], [], _, _, hg => by simp [GapsOKC] at hg
+  | [t], g :: gs, tail, _, hg => by
+    simp only [GapsOKC, Bool.and_eq_true] at hg
+    exact hg.1.2
+  | t :: u :: ts, [], _, _, hg => by simp [GapsOKC] at hg
+  | t :: u :: ts, [g], _, _, hg => by simp [GapsOKC] at hg
+  | t :: u :: ts, g :: g' :: gs, tail, _, hg => by
+    simp only [GapsOKC, Bool.and_eq_true] at hg
+    exact gapsOKC_tail_ws (u :: ts) (g' :: gs) tail (by simp) hg.2
+
+theorem ctoksItems_ne : ∀ (items : List CItem), items ≠ [] → ctoksItems items ≠ []
+  | [], h => absurd rfl h
+  | .entry k (.lit l) :: r, _ => by simp [ctoksItems]
+  | .entry k (.dict dd) :: r, _ => by simp [ctoksItems]
+  | .entry k (.list l) :: r, _ => by simp [ctoksItems]
+  | .lineC x :: r, _ => by simp [ctoksItems]
+  | .blockC x :: r, _ => by simp [ctoksItems]
+
+/-- the tail of an admissible layout of a document is white space (for the empty document: by hypothesis) -/
+theorem tail_ws {items : List CItem} {gaps : List Str} {tail : Str}
+    (hg : GapsOKC (ctoksItems items) gaps tail = true) (htail : items = [] → tail.all isWs = true) :
+    tail.all isWs = true := by
+  by_cases h : items = []
+  · exact htail h
+  · exact gapsOKC_tail_ws _ gaps tail (ctoksItems_ne items h) hg
+
 end Stages
+open Stages
+
+/-! ## 9. the comment stages on an admissible layout -/
+
+/-- **comments on, token form.**  On an admissible layout of admissible tokens the three comment stages leave the
+    state `labelCToks` describes and a layout of the labelled tokens; the new gaps are the old ones with the blanks
+    of the block-comment placeholders added (`padGaps`). -/
+theorem comment_stages_on_toks {ts : List CTok} {gaps : List Str} {tail : Str} (dir : Str) (c : Counter)
+    (hts : ∀ t ∈ ts, AOK t) (hg : GapsOKC ts gaps tail = true) (htail : tail.all isWs = true) :
+    commentStages true dir c (spreadC ts gaps tail) =
+      ({ counter := (labelCToks { counter := c } ts).1.counter, lineC := (labelCToks { counter := c } ts).1.lineC,
+         blockC := (labelCToks { counter := c } ts).1.blockC },
+       spreadS (labelCToks { counter := c } ts).2 (padGaps false ts gaps tail).1 (padGaps false ts gaps tail).2) ∧
+    GapsOKS (labelCToks { counter := c } ts).2 (padGaps false ts gaps tail).1 = true ∧
+    (padGaps false ts gaps tail).2.all isWs = true := by
+  obtain ⟨s1, s2⟩ := stages_state true ts { counter := c } []
+  have s3 := stages_texts_on ts { counter := c } []
+  have hrel := relToks_label ts { counter := c }
+  have e1 := on_text ts _ false gaps tail hrel
+  have e2 := on_gaps ts _ false gaps tail hrel hg htail
+  simp only [List.length_nil] at s2 s3
+  refine ⟨?_, e2⟩
+  rw [stages123 true dir c ts gaps tail hts hg htail, s1, s2, s3, ← e1]
+  rfl
+
+/-- **comments off, token form.**  The same state; the text is a layout of the tokens that are no comments, the
+    gaps on either side of a comment merged (`mergeGaps`). -/
+theorem comment_stages_off_toks {ts : List CTok} {gaps : List Str} {tail : Str} (dir : Str) (c : Counter)
+    (hts : ∀ t ∈ ts, AOK t) (hg : GapsOKC ts gaps tail = true) (htail : tail.all isWs = true) :
+    commentStages false dir c (spreadC ts gaps tail) =
+      ({ counter := (labelCToks { counter := c } ts).1.counter, lineC := (labelCToks { counter := c } ts).1.lineC,
+         blockC := (labelCToks { counter := c } ts).1.blockC },
+       spreadS (plainToks ts) (mergeGaps [] ts gaps tail).1 (mergeGaps [] ts gaps tail).2) ∧
+    GapsOKS (plainToks ts) (mergeGaps [] ts gaps tail).1 = true ∧
+    (mergeGaps [] ts gaps tail).2.all isWs = true := by
+  obtain ⟨s1, s2⟩ := stages_state false ts { counter := c } []
+  have s3 := stages_texts_off ts { counter := c } 0 []
+  have e1 := off_text ts [] gaps tail
+  have e2 := off_gaps ts [] gaps tail rfl hg htail
+  simp only [List.length_nil] at s2
+  simp only [List.nil_append] at e1
+  refine ⟨?_, e2⟩
+  rw [stages123 false dir c ts gaps tail hts hg htail, s1, s2, s3, e1]
+  rfl
+
+/-- **comment_stages_on.**  For a well-formed commented document and ANY admissible layout of its tokens the first
+    three stages of the reader (line comments, include directives, block comments), comments on, produce exactly what
+    `labelCToks` says: the counter has advanced by the number of line comments, the two comment tables hold the
+    comment texts under the ids drawn in document order, every other table is empty, and the text is an admissible
+    layout of the labelled token list.
+
+    Added hypothesis: for the EMPTY document the tail must be white space (`GapsOKC [] _ tail` says nothing about the
+    tail; for a non-empty document it follows from `GapsOKC`).  See `comment_stages_needs_tail`. -/
+theorem comment_stages_on {d : Nat} {items : List CItem} {gaps : List Str} {tail : Str} (dir : Str) (c : Counter) :
+    CSrcWFItems d items = true → GapsOKC (ctoksItems items) gaps tail = true → (items = [] → tail.all isWs = true) →
+      let r := labelCToks { counter := c } (ctoksItems items)
+      ∃ gaps' tail', commentStages true dir c (spreadC (ctoksItems items) gaps tail)
+          = ({ counter := r.1.counter, lineC := r.1.lineC, blockC := r.1.blockC }, spreadS r.2 gaps' tail')
+        ∧ GapsOKS r.2 gaps' = true ∧ tail'.all isWs = true := by
+  intro hwf hg htail
+  obtain ⟨h1, h2, h3⟩ := comment_stages_on_toks dir c (ctoksI_ok items d hwf) hg (tail_ws hg htail)
+  exact ⟨_, _, h1, h2, h3⟩
+
+/-- **comment_stages_off.**  With comments off the state is the same (the tables are filled all the same) and the text
+    is an admissible layout of the token list with the comment tokens removed. -/
+theorem comment_stages_off {d : Nat} {items : List CItem} {gaps : List Str} {tail : Str} (dir : Str) (c : Counter) :
+    CSrcWFItems d items = true → GapsOKC (ctoksItems items) gaps tail = true → (items = [] → tail.all isWs = true) →
+      let r := labelCToks { counter := c } (ctoksItems items)
+      let toks := (ctoksItems items).filterMap (fun t => match t with | .tok s => some s | _ => none)
+      ∃ gaps' tail', commentStages false dir c (spreadC (ctoksItems items) gaps tail)
+          = ({ counter := r.1.counter, lineC := r.1.lineC, blockC := r.1.blockC }, spreadS toks gaps' tail')
+        ∧ GapsOKS toks gaps' = true ∧ tail'.all isWs = true := by
+  intro hwf hg htail
+  obtain ⟨h1, h2, h3⟩ := comment_stages_off_toks dir c (ctoksI_ok items d hwf) hg (tail_ws hg htail)
+  exact ⟨_, _, h1, h2, h3⟩
+
+/-- the same with the document view of both sides: the state and the tokens of the labelled document
+    (`labelCItems`, `srcToksPEs`), resp. the tokens of the comment-free document (`plainItems`) -/
+theorem comment_stages_on_doc {d : Nat} {items : List CItem} {gaps : List Str} {tail : Str} (dir : Str) (c : Counter)
+    (hwf : CSrcWFItems d items = true) (hg : GapsOKC (ctoksItems items) gaps tail = true)
+    (htail : items = [] → tail.all isWs = true) :
+    ∃ gaps' tail', commentStages true dir c (spreadC (ctoksItems items) gaps tail)
+        = ({ counter := (labelCItems { counter := c } items).1.counter,
+             lineC := (labelCItems { counter := c } items).1.lineC,
+             blockC := (labelCItems { counter := c } items).1.blockC },
+           spreadS (srcToksPEs (labelCItems { counter := c } items).2) gaps' tail')
+      ∧ GapsOKS (srcToksPEs (labelCItems { counter := c } items).2) gaps' = true ∧ tail'.all isWs = true := by
+  have h := comment_stages_on dir c hwf hg htail
+  rw [labelCToks_items { counter := c } hwf] at h
+  exact h
+
+theorem comment_stages_off_doc {d : Nat} {items : List CItem} {gaps : List Str} {tail : Str} (dir : Str) (c : Counter)
+    (hwf : CSrcWFItems d items = true) (hg : GapsOKC (ctoksItems items) gaps tail = true)
+    (htail : items = [] → tail.all isWs = true) :
+    ∃ gaps' tail', commentStages false dir c (spreadC (ctoksItems items) gaps tail)
+        = ({ counter := (labelCItems { counter := c } items).1.counter,
+             lineC := (labelCItems { counter := c } items).1.lineC,
+             blockC := (labelCItems { counter := c } items).1.blockC },
+           spreadS (srcToksEs (plainItems items)) gaps' tail')
+      ∧ GapsOKS (srcToksEs (plainItems items)) gaps' = true ∧ tail'.all isWs = true := by
+  have h := comment_stages_off dir c hwf hg htail
+  rw [labelCToks_items { counter := c } hwf, ctoks_plain items] at h
+  exact h
+
+/-! ## 10. the added hypothesis is needed; non-vacuity -/
+
+/-- For the empty document `GapsOKC` does not constrain the tail, and a tail that is not white space may hold a
+    comment: the line-comment table is then not the (empty) one `labelCToks` gives.  (A statement about the model of
+    admissible layouts, not a finding about the reader.) -/
+theorem comment_stages_needs_tail :
+    ¬ ∀ (gaps : List Str) (tail : Str), GapsOKC (ctoksItems []) gaps tail = true →
+      let r := labelCToks { counter := none } (ctoksItems [])
+      ∃ gaps' tail', commentStages true [] none (spreadC (ctoksItems []) gaps tail)
+          = ({ counter := r.1.counter, lineC := r.1.lineC, blockC := r.1.blockC }, spreadS r.2 gaps' tail')
+        ∧ GapsOKS r.2 gaps' = true ∧ tail'.all isWs = true := by
+  intro h
+  obtain ⟨gaps', tail', he, _, _⟩ := h [] ['/', '/', 'x'] (by simp [ctoksItems, GapsOKC])
+  have := congrArg (fun p => p.1.lineC) he
+  revert this
+  simp only [ctoksItems, labelCToks]
+  decide +kernel
+
+/-- a line comment at the top, a block comment, an entry, a comment whose text contains quotes, `;`, `{`, `$`, a nested
+    dict with a line comment, a quoted string, a block comment over two lines and another line comment, a list, and a
+    last line comment -/
+def exDoc : List CItem := [
+  .lineC " first".toList, .blockC " hdr C++ x ".toList,
+  .entry ['a'] (.lit (.bare ['1'])),
+  .lineC " tail 'q' ; { $x".toList,
+  .entry ['n'] (.dict [.lineC " nested".toList, .entry ['p'] (.lit (.quoted '\'' "x y".toList)),
+    .blockC "blk\n two".toList, .lineC " nested".toList]),
+  .entry ['l'] (.list [.lit (.bare ['1']), .lit (.quoted '"' "it's".toList)]),
+  .lineC " first".toList]
+
+/-- one blank between tokens, a line feed and two blanks after a line comment -/
+def exGaps : List Str :=
+  [[' '], ['\n', ' ', ' '], [' '], [' '], [' '], [' '], ['\n', ' ', ' '], [' '], [' '], ['\n', ' ', ' '], [' '], [' '],
+   [' '], [' '], ['\n', ' ', ' '], [' '], [' '], [' '], [' '], [' '], [' '], [' ']]
+
+theorem exDoc_wf : CSrcWFItems 1 exDoc = true := by decide +kernel
+
+/-- the tokens of the example (`ctoksItems` is defined by well-founded recursion: unfolded with its equations) -/
+def exToks : List CTok :=
+  [.lineC " first".toList, .blockC " hdr C++ x ".toList, .tok (.word ['a']), .tok (.word ['1']), .tok (.word [';']),
+   .lineC " tail 'q' ; { $x".toList, .tok (.word ['n']), .tok (.word ['{']), .lineC " nested".toList,
+   .tok (.word ['p']), .tok (.quoted '\'' "x y".toList), .tok (.word [';']), .blockC "blk\n two".toList,
+   .lineC " nested".toList, .tok (.word ['}']), .tok (.word ['l']), .tok (.word ['(']), .tok (.word ['1']),
+   .tok (.quoted '"' "it's".toList), .tok (.word [')']), .tok (.word [';']), .lineC " first".toList]
+
+theorem exToks_eq : ctoksItems exDoc = exToks := by
+  simp [exDoc, exToks, ctoksItems, srcToksXs, srcToksV, Lit.tok]
+
+theorem exGaps_ok : GapsOKC (ctoksItems exDoc) exGaps ['\n'] = true := by rw [exToks_eq]; decide +kernel
+
+theorem exDoc_text : spreadC (ctoksItems exDoc) exGaps ['\n'] =
+    (" // first\n  /* hdr C++ x */ a 1 ; // tail 'q' ; { $x\n  n { // nested\n  p 'x y' ; /*blk\n two*/ // nested\n" ++
+     "  } l ( 1 \"it's\" ) ; // first\n").toList := by rw [exToks_eq]; decide +kernel
+
+/-- the two theorems on the example -/
+theorem exDoc_on (dir : Str) (c : Counter) :
+    let r := labelCToks { counter := c } (ctoksItems exDoc)
+    ∃ gaps' tail', commentStages true dir c (spreadC (ctoksItems exDoc) exGaps ['\n'])
+        = ({ counter := r.1.counter, lineC := r.1.lineC, blockC := r.1.blockC }, spreadS r.2 gaps' tail')
+      ∧ GapsOKS r.2 gaps' = true ∧ tail'.all isWs = true :=
+  comment_stages_on dir c exDoc_wf exGaps_ok (fun h => by cases h)
+
+theorem exDoc_off (dir : Str) (c : Counter) :
+    ∃ gaps' tail', commentStages false dir c (spreadC (ctoksItems exDoc) exGaps ['\n'])
+        = ({ counter := (labelCItems { counter := c } exDoc).1.counter,
+             lineC := (labelCItems { counter := c } exDoc).1.lineC,
+             blockC := (labelCItems { counter := c } exDoc).1.blockC },
+           spreadS (srcToksEs (plainItems exDoc)) gaps' tail')
+      ∧ GapsOKS (srcToksEs (plainItems exDoc)) gaps' = true ∧ tail'.all isWs = true :=
+  comment_stages_off_doc dir c exDoc_wf exGaps_ok (fun h => by cases h)
+
+/-- what `labelCToks` says on the example, from a fresh counter: five line comments with the ids 0…4, two block
+    comments with the ids 0, 1 -/
+theorem exDoc_label :
+    (labelCToks { counter := none } (ctoksItems exDoc)).1.counter = some 4 ∧
+    (labelCToks { counter := none } (ctoksItems exDoc)).1.lineC =
+      [(0, "// first".toList), (1, "// tail 'q' ; { $x".toList), (2, "// nested".toList), (3, "// nested".toList),
+       (4, "// first".toList)] ∧
+    (labelCToks { counter := none } (ctoksItems exDoc)).1.blockC =
+      [(0, "/* hdr C++ x */".toList), (1, "/*blk\n two*/".toList)] := by
+  rw [exToks_eq]
+  refine ⟨?_, ?_, ?_⟩ <;> decide +kernel
+
+/-- the text after the stages on the example, through `comment_stages_on_toks` -/
+theorem exDoc_on_text (dir : Str) :
+    (commentStages true dir none (spreadC (ctoksItems exDoc) exGaps ['\n'])).2 =
+      (" LINECOMMENT000000\n   BLOCKCOMMENT000000  a 1 ; LINECOMMENT000001\n  n { LINECOMMENT000002\n" ++
+       "  p 'x y' ;  BLOCKCOMMENT000001  LINECOMMENT000003\n  } l ( 1 \"it's\" ) ; LINECOMMENT000004\n").toList := by
+  rw [(comment_stages_on_toks dir none (ctoksI_ok exDoc 1 exDoc_wf) exGaps_ok (by decide)).1, exToks_eq]
+  decide +kernel
+
+theorem exDoc_off_text (dir : Str) :
+    (commentStages false dir none (spreadC (ctoksItems exDoc) exGaps ['\n'])).2 =
+      " \n   a 1 ; \n  n { \n  p 'x y' ;  \n  } l ( 1 \"it's\" ) ; \n".toList := by
+  rw [(comment_stages_off_toks dir none (ctoksI_ok exDoc 1 exDoc_wf) exGaps_ok (by decide)).1, exToks_eq]
+  decide +kernel
 
 end DictIO.C12
